@@ -5,6 +5,7 @@ import Driver.ArrJson
 import Driver.Suites.Build
 import SaModel.Backend.Adapters
 import SaModel.Backend.BuildCore
+import SaModel.Backend.History
 import SaModel.Build.Finish
 import SaModel.Spec.Decode
 import SaModel.Spec.Interp
@@ -386,6 +387,74 @@ def handle (j : Json) : Except String Verdict := do
           if agreeSig == "" then
             agreeSig := s!"C19/model/read/{k}/model-err"
             agreeWhy := s!"adapter model fails for from_{k}: {repr e}"
+    -- reused builders: the HISTORY model (Backend/History.lean — `builder_reuse_agrees`, `record_batch_schema_stable` are
+    -- about `runHistory`): rows, `to_<first>()?`, the same rows again, `to_<to>()` on one builder
+    for x in (← getArr j "cross_out").toList do
+      match (getStr x "first").toOption with
+      | none => pure ()
+      | some first =>
+        let s ← getStr x "from"
+        let d ← getStr x "to"
+        let fin (n : String) : Backend.Finisher :=
+          if n == "marrow" then .marrow else if n == "arrow" then .arrow else if n == "batch" then .recordBatch else .arrow2
+        let mk : R (Backend.ArrayBuilder B) :=
+          if s == "marrow" then Backend.ArrayBuilder.fromMarrow core fields
+          else if s == "arrow" then Backend.ArrayBuilder.fromArrow core (wireConv "arrow") fields
+          else Backend.ArrayBuilder.fromArrow2 core (wireConv "arrow2") fields
+        let model : R (Backend.Built Field Arr Arr) := do
+          let b ← mk
+          let (outs, _) ← Backend.runHistory core (wireConv "arrow") (wireConv "arrow2") (fun _ _ => .ok ()) b
+            [.add rows, .finish (fin first), .add rows, .finish (fin d)]
+          match outs with
+          | [r1, r2] => do let _ ← r1; r2
+          | _ => fail "history model: two builds expected"
+        let o := get x "out"
+        let icls := pathCls o
+        let icls' := if icls == "field_err" || icls == "view_err" then "err" else icls
+        tags := "reuse-model" :: tags
+        if model.cls != icls' then
+          if agreeSig == "" then
+            agreeSig := s!"C19/model/reuse/{s}>{first}>{d}/model={model.cls}/impl={icls}/{culpritOf (family d)}"
+            agreeWhy := s!"history model predicts {model.cls} for the second build of a reused builder, implementation: {icls}"
+        else
+          match model with
+          | .ok built =>
+            let (marr, mfields) : List Arr × Option (List Field × Metadata) := match built with
+              | .marrow a => (a, none)
+              | .arrow a => (a, none)
+              | .arrow2 a => (a, none)
+              | .recordBatch b => (b.columns, some (b.fields, b.schemaMetadata))
+            let iarr ← arraysOf o
+            let schemaOk : Bool := match mfields, getOpt x "batch" with
+              | some (mf, mm), some bi =>
+                (match getArr bi "fields" with
+                 | .ok a => (a.toList.mapM fieldOfJson).toOption == some mf
+                 | .error _ => false) && (get bi "meta") == metaToJson mm
+              | some _, none => false
+              | none, _ => true
+            if ((contentEq marr iarr).isSome || !schemaOk) && agreeSig == "" then
+              agreeSig := s!"C19/model/reuse/{s}>{first}>{d}/{if schemaOk then "content" else "batch-schema"}"
+              agreeWhy := "history model and the second build of a reused builder differ in content or in the batch's schema"
+          | .error _ => pure ()
+    -- count mismatches: the reader constructors of the model (`reader_count_mismatch_refused`); the marrow family
+    -- through the count check `Deserializer::new` starts with (`Core.counted`)
+    match getOpt j "de_mismatch" with
+    | some (.obj kvs) =>
+      for (k, v) in kvs.toList do
+        let fam := (k.splitOn "/").headD ""
+        let fewerFields := (k.splitOn "/").getLastD "" == "fewer_fields"
+        let b := if fam.endsWith "arrow2" then "arrow2" else if fam.endsWith "arrow" then "arrow" else "marrow"
+        let views := if b == "marrow" then marrowViews else viewsOf b
+        let fs := if fewerFields then fields.dropLast else fields
+        let vs := if fewerFields then views else views.dropLast
+        let model : R Json :=
+          if b == "marrow" then Backend.fromMarrow core.counted fs vs
+          else if b == "arrow2" then Backend.fromArrow2 core (wireConv b) fs vs
+          else Backend.fromArrow core (wireConv b) fs vs
+        if v != Json.str model.cls && agreeSig == "" then
+          agreeSig := s!"C19/model/read-count-mismatch/{k}/model={model.cls}"
+          agreeWhy := s!"{k}: the reader model gives {model.cls}, the implementation {v.compress}"
+    | _ => pure ()
   tags := s!"arrays:{if checkedArrays == 0 then "0" else "+"}" :: tags
   let c19 := if specSig != "" then "fail" else "pass"
   return { agree := agreeSig == "", spec := [("C19", c19), ("C16", c16)],
